@@ -493,8 +493,9 @@ class AbstractWorker:
                 # need to stop this task and continue with the next one
                 return None, False, False, False
 
-            except (Exception, SystemExit) as err:
-                # An exception occurred inside the provided function. Let the signal handler know it shouldn't raise any
+            except BaseException as err:
+                # An exception occurred inside the provided function (this includes SystemExit, KeyboardInterrupt,
+                # asyncio.CancelledError, ...). Let the signal handler know it shouldn't raise any
                 # StopWorker or InterruptWorker exceptions from the parent process anymore, we got this.
                 self.worker_comms.set_worker_running_task(self.worker_id, False)
 
